@@ -7,20 +7,21 @@ occurrences of its name anywhere in the script.
 -/
 namespace Fsic.Parser
 
-/-- The guards, per statement. -/
+/-- The index guard, per statement: a function term carries no index. -/
 def StmtOK (stmt : Stmt) : Prop :=
-  (∀ s ∈ stmtOcc stmt, s.type = .function → s.lags = .none) ∧
-  (∀ s1 ∈ stmtOcc stmt, ∀ s2 ∈ stmtOcc stmt, s1.name = s2.name → s1.type = .function → s2.type = .function)
+  ∀ s ∈ stmtOcc stmt, s.type = .function → s.lags = .none
+
+/-- The nameless VERBATIM symbol of a verbatim statement. -/
+def verbSyms : Stmt → List Symbol
+  | .verb e c => [⟨none, .verbatim, .none, .none, some e, some c⟩]
+  | .eqn _ _ _ => []
 
 theorem stmtOcc_subset {S : List Stmt} {stmt : Stmt} (h : stmt ∈ S) : ∀ s ∈ stmtOcc stmt, s ∈ scriptOcc S := by
   intro s hs; exact List.mem_flatMap.2 ⟨stmt, h, hs⟩
 
-theorem stmtOK_of_guards {S : List Stmt} (w1 : WellIndexed S) (w2 : NoFunctionClash S) :
-    ∀ stmt ∈ S, StmtOK stmt := by
-  intro stmt hst
-  refine ⟨?_, ?_⟩
-  · intro s hs hf; exact (w1 s (stmtOcc_subset hst s hs)).1 (by rw [hf]; rfl)
-  · intro s1 h1 s2 h2; exact w2 s1 (stmtOcc_subset hst s1 h1) s2 (stmtOcc_subset hst s2 h2)
+theorem stmtOK_of_guards {S : List Stmt} (w1 : WellIndexed S) : ∀ stmt ∈ S, StmtOK stmt := by
+  intro stmt hst s hs hf
+  exact (w1 s (stmtOcc_subset hst s hs)).1 (by rw [hf]; rfl)
 
 theorem mem_termSyms {e c : String} {ts : List Term} {t : Term} (ht : t ∈ ts) (hv : t.type ≠ .verbatim) :
     termSymbol e c t ∈ termSyms e c ts := by
@@ -31,14 +32,27 @@ theorem termSyms_name_some {e c : String} {ts : List Term} : ∀ s ∈ termSyms 
   intro s hs; unfold termSyms at hs
   obtain ⟨t, _, rfl⟩ := List.mem_map.1 hs; rfl
 
-theorem symbolsOfTerms_of_ok {e c : String} {ts : List Term} (hok : StmtOK (.eqn ts e c)) :
-    symbolsOfTerms e c ts = foldE addSym [] (termSyms e c ts) := by
-  apply symbolsOfTerms_eq
-  · intro t ht hf
-    have hv : t.type ≠ .verbatim := by rw [hf]; simp
-    exact hok.1 _ (mem_termSyms ht hv) hf
-  · intro t1 h1 t2 h2 hv1 hv2 hn hf
-    exact hok.2 _ (mem_termSyms h1 hv1) _ (mem_termSyms h2 hv2) (by simp [termSymbol_name, hn]) hf
+theorem stmtOK_terms {e c : String} {ts : List Term} (hok : StmtOK (.eqn ts e c)) :
+    ∀ t ∈ ts, t.type = .function → t.index = .none := by
+  intro t ht hf
+  have hv : t.type ≠ .verbatim := by rw [hf]; simp
+  exact hok _ (mem_termSyms ht hv) hf
+
+/-- An accepted statement: its symbols are the `addSym` fold of its term symbols, and exactly one of them is an
+    endogenous variable carrying the equation. -/
+theorem symbolsOfTerms_ok {e c : String} {ts : List Term} {G : List Symbol} (hok : StmtOK (.eqn ts e c))
+    (h : symbolsOfTerms e c ts = .ok G) :
+    foldE addSym [] (termSyms e c ts) = .ok G ∧ (G.filter isDefined).length = 1 := by
+  rcases symbolsOfTerms_cases e c ts (stmtOK_terms hok) with h1 | ⟨h1, _⟩
+  · rw [h1] at h
+    cases hf : foldE addSym [] (termSyms e c ts) with
+    | error x => rw [hf] at h; cases h
+    | ok G' =>
+      rw [hf] at h
+      by_cases hl : (G'.filter isDefined).length = 1
+      · simp only [hl, if_true] at h; cases h; exact ⟨rfl, hl⟩
+      · simp [hl] at h
+  · rw [h1] at h; cases h
 
 /-- An accepted dictionary fold from the empty dictionary. -/
 theorem fold_from_empty {ss d : List Symbol} (h : foldE addSym [] ss = .ok d) :
@@ -70,14 +84,16 @@ theorem stmt_char {stmt : Stmt} {G : List Symbol} (h : stmtSymbols stmt = .ok G)
         = ((stmtOcc stmt).map (·.name)).foldl pushNew acc) ∧
     (∀ g ∈ G, g.name.isSome = true → Summ g ((stmtOcc stmt).filter (fun s => s.name = g.name))) ∧
     (∀ s ∈ stmtOcc stmt, ∃ g ∈ G, g.name = s.name ∧ g.name.isSome = true) ∧
-    (∀ g ∈ G, g.name.isSome = false → g.type = .verbatim) := by
+    (∀ g ∈ G, g.name.isSome = false → g.type = .verbatim) ∧
+    (G.filter (fun s => s.name.isNone) = verbSyms stmt) ∧
+    (∀ ts e c, stmt = .eqn ts e c → (G.filter isDefined).length = 1) := by
   cases stmt with
   | verb e c =>
     simp [stmtSymbols] at h; subst h
-    simp [stmtOcc]
+    simp [stmtOcc, verbSyms]
   | eqn ts e c =>
     simp only [stmtSymbols] at h
-    rw [symbolsOfTerms_of_ok hok] at h
+    obtain ⟨h, hone⟩ := symbolsOfTerms_ok hok h
     obtain ⟨hk, hnd, hs, hc⟩ := fold_from_empty h
     have hsome : ∀ g ∈ G, g.name.isSome = true := by
       intro g hg
@@ -87,7 +103,7 @@ theorem stmt_char {stmt : Stmt} {G : List Symbol} (h : stmtSymbols stmt = .ok G)
       rw [← hsn]; exact termSyms_name_some s hs'
     have hfilter : G.filter (fun s => s.name.isSome) = G := by
       apply List.filter_eq_self.2; intro g hg; exact hsome g hg
-    refine ⟨?_, ?_, ?_, ?_⟩
+    refine ⟨?_, ?_, ?_, ?_, ?_, ?_⟩
     · intro acc
       rw [hfilter]
       show (keys G).foldl pushNew acc = _
@@ -97,6 +113,13 @@ theorem stmt_char {stmt : Stmt} {G : List Symbol} (h : stmtSymbols stmt = .ok G)
       obtain ⟨g, hg, hgn⟩ := hc s hs'
       exact ⟨g, hg, hgn, hsome g hg⟩
     · intro g hg hn; rw [hsome g hg] at hn; cases hn
+    · simp only [verbSyms]
+      apply List.filter_eq_nil_iff.2
+      intro g hg; have := hsome g hg
+      cases hn : g.name with
+      | none => rw [hn] at this; cases this
+      | some x => simp
+    · intro _ _ _ _; exact hone
 
 theorem mapE_cons_ok {α β ε} {f : α → Except ε β} {x : α} {xs : List α} {ys : List β}
     (h : mapE f (x :: xs) = .ok ys) : ∃ y ys', f x = .ok y ∧ mapE f xs = .ok ys' ∧ ys = y :: ys' := by
@@ -143,12 +166,26 @@ theorem keys_of_groups : ∀ (S : List Stmt) (groups : List (List Symbol)) (acc 
     rw [hG acc]
     exact ih groups' _ h2 (fun s hs => hok s (by simp [hs]))
 
+theorem verb_of_groups : ∀ (S : List Stmt) (groups : List (List Symbol)),
+    mapE stmtSymbols S = .ok groups → (∀ stmt ∈ S, StmtOK stmt) →
+    groups.flatten.filter (fun s => s.name.isNone) = S.flatMap verbSyms := by
+  intro S
+  induction S with
+  | nil => intro groups h _; simp [mapE] at h; subst h; simp
+  | cons stmt S ih =>
+    intro groups h hok
+    obtain ⟨G, groups', h1, h2, rfl⟩ := mapE_cons_ok h
+    have hG := (stmt_char h1 (hok stmt (by simp))).2.2.2.2.1
+    simp only [List.flatten_cons, List.filter_append, List.flatMap_cons]
+    rw [hG, ih groups' h2 (fun s hs => hok s (by simp [hs]))]
+
 /-- **Characterisation of an accepted script.** -/
 theorem parseModel_char {S : List Stmt} {syms : List Symbol} (h : parseModel S = .ok syms)
     (hok : ∀ stmt ∈ S, StmtOK stmt) :
     ∃ D V, syms = D ++ V ∧ (∀ v ∈ V, v.name = none ∧ v.type = .verbatim) ∧
       keys D = firstApp ((scriptOcc S).map (·.name)) ∧
-      (∀ c ∈ D, Summ c ((scriptOcc S).filter (fun s => s.name = c.name))) := by
+      (∀ c ∈ D, Summ c ((scriptOcc S).filter (fun s => s.name = c.name))) ∧
+      V = S.flatMap verbSyms := by
   unfold parseModel at h
   cases hm : mapE stmtSymbols S with
   | error e => simp [hm] at h
@@ -162,13 +199,14 @@ theorem parseModel_char {S : List Stmt} {syms : List Symbol} (h : parseModel S =
       rw [hf] at h
       simp only [List.nil_append] at h
       obtain ⟨mem1, mem2⟩ := mapE_ok_mem hm
-      refine ⟨D, groups.flatten.filter (fun s => s.name.isNone), by cases h; rfl, ?_, ?_, ?_⟩
+      refine ⟨D, groups.flatten.filter (fun s => s.name.isNone), by cases h; rfl, ?_, ?_, ?_,
+        verb_of_groups S groups hm hok⟩
       · intro v hv
         obtain ⟨hv1, hv2⟩ := List.mem_filter.1 hv
         obtain ⟨G, hG, hvG⟩ := List.mem_flatten.1 hv1
         obtain ⟨stmt, hst, hs⟩ := mem1 G hG
         have hnone : v.name = none := by simpa using hv2
-        refine ⟨hnone, (stmt_char hs (hok stmt hst)).2.2.2 v hvG (by simp [hnone])⟩
+        refine ⟨hnone, (stmt_char hs (hok stmt hst)).2.2.2.1 v hvG (by simp [hnone])⟩
       · obtain ⟨hk, _⟩ := fold_from_empty hf
         rw [hk]
         have := keys_of_groups S groups [] hm hok
@@ -183,7 +221,7 @@ theorem parseModel_char {S : List Stmt} {syms : List Symbol} (h : parseModel S =
           have hsn : s.name = c.name := by simpa using hs2
           obtain ⟨stmt, hst, hso⟩ := List.mem_flatMap.1 hs1
           obtain ⟨G, hG, hGs⟩ := mem2 stmt hst
-          obtain ⟨_, p2, p3, _⟩ := stmt_char hGs (hok stmt hst)
+          obtain ⟨_, p2, p3, _, _, _⟩ := stmt_char hGs (hok stmt hst)
           obtain ⟨g, hg, hgn, hgs⟩ := p3 s hso
           refine ⟨g, ?_, (stmtOcc stmt).filter (fun s => s.name = g.name), p2 g hg hgs, ?_⟩
           · apply List.mem_filter.2
@@ -197,7 +235,7 @@ theorem parseModel_char {S : List Stmt} {syms : List Symbol} (h : parseModel S =
           obtain ⟨hg3, hgs⟩ := List.mem_filter.1 hg1
           obtain ⟨G, hG, hgG⟩ := List.mem_flatten.1 hg3
           obtain ⟨stmt, hst, hs''⟩ := mem1 G hG
-          obtain ⟨_, p2, _, _⟩ := stmt_char hs'' (hok stmt hst)
+          obtain ⟨_, p2, _, _, _, _⟩ := stmt_char hs'' (hok stmt hst)
           refine ⟨(stmtOcc stmt).filter (fun s => s.name = g.name), p2 g hgG hgs, ?_⟩
           intro s hs'
           obtain ⟨hs1, hs2⟩ := List.mem_filter.1 hs'
